@@ -58,14 +58,23 @@ JOB = 'sim.props.c20:job'
 # --------------------------------------------------------------------------
 # documents
 
+def xr_prefix(mode, j):
+    return 'X%d-' % j if mode in ('prefix', 'both') else ''
+
+
+def xr_url(mode, j):
+    return 'http://ex.org/d%d/' % j if mode in ('url', 'both') else ''
+
+
 def doc_source(i, st, m, use_xr):
-    """st = {'items': [[kind, k, version], ...]}; labels d<i>L<k>."""
+    """st = {'items': [[kind, k, version], ...]}; labels d<i>L<k>.  use_xr: False | 'plain' | 'prefix' | 'url' | 'both'."""
     lines = ['\\documentclass{article}']
     if use_xr:
         lines.append('\\usepackage{xr}')
         for j in range(m):
             if j != i:
-                lines.append('\\externaldocument{d%d}' % j)
+                pre, url = xr_prefix(use_xr, j), xr_url(use_xr, j)
+                lines.append('\\externaldocument%s{d%d}%s' % ('[%s]' % pre if pre else '', j, '[%s]' % url if url else ''))
     lines.append('\\begin{document}')
     for kind, k, ver in st['items']:
         lab = 'd%dL%d' % (i, k)
@@ -77,7 +86,7 @@ def doc_source(i, st, m, use_xr):
             lines.append('Before e%dx%d.' % (i, k))
             lines.append('\\begin{equation}\\label{%s} x_{%d}=%d \\end{equation}' % (lab, k, ver))
     for (j, k) in st['refs']:
-        lines.append('See r%dx%dx%d \\ref{d%dL%d}.' % (i, j, k, j, k))
+        lines.append('See r%dx%dx%d \\ref{%sd%dL%d}.' % (i, j, k, xr_prefix(use_xr, j) if use_xr else '', j, k))
     lines.append('\\end{document}')
     return '\n'.join(lines) + '\n'
 
@@ -122,7 +131,7 @@ def generate(seed, tier):
              'foreign-shape', 'not-a-pickle', 'edit']
     enabled = [k for k in kinds if rf.random() < 0.66] or ['crash']
     fault_free = rf.random() < 0.12          # separate fault-free population
-    use_xr = r.random() < 0.35 and all(x in ('HTML5', 'XHTML') for x in rends)
+    use_xr = r.choice(['plain', 'plain', 'prefix', 'url', 'both']) if (r.random() < 0.35 and all(x in ('HTML5', 'XHTML') for x in rends)) else False
     ro = R('ops')
     ops = []
     # warm-up: every document once under the first renderer
@@ -730,6 +739,8 @@ class Sim(object):
         restored = res['restored'] or {}
         byfile = {}
         for lab, d in restored.items():
+            if self.xr and isinstance(lab, str) and lab.startswith('X') and '-d' in lab:
+                continue        # labels[prefix + label] entries made by \externaldocument[prefix]: judged by the xr check
             if not isinstance(lab, str) or not lab.startswith('d') or 'L' not in lab:
                 byfile.setdefault('?', {})[lab] = d
                 continue
@@ -786,7 +797,9 @@ class Sim(object):
                 if fm2 is None or fname == name or fm2['fuzzy']:
                     continue
                 gotv = (target['ref'], target['title'], target['url']) if target['kind'] == 'dict' else None
+                base = xr_url(self.xr, int(lab[1:].split('L')[0]))
                 cands = [c.get(R, {}).get(lab) for c in fm2['cands']]
+                cands = [(v[0], v[1], (base + v[2]) if (base and v[2] is not None) else v[2]) if v is not None else None for v in cands]
                 if gotv not in cands:
                     others = [c.get(R2, {}).get(lab) for c in fm2['cands'] for R2 in c if R2 != R]
                     cls = 'other-renderer-block' if gotv in others and gotv is not None else 'wrong-data'
